@@ -92,6 +92,20 @@ theorem split_eq_whole_of_solves (L : Mat3) (F : ℝ → Mat3) (hF : SolvesLF L 
     Fsol L (Fsol L (F t0) t0 t1) t1 t2 = F t2 := by
   rw [split_eq_whole, ← solution_unique L F hF]
 
+/-- **a reversed interval undoes the forward one**: integrating `t0 → t1` and then back `t1 → t0` (time_end < time_start is
+an ordinary call of the update) returns the supplied deformation gradient -/
+theorem backward_undoes_forward (L F0 : Mat3) (t0 t1 : ℝ) :
+    Fsol L (Fsol L F0 t0 t1) t1 t0 = F0 := by
+  rw [split_eq_whole]
+  simp [Fsol]
+
+/-- **the time origin is immaterial for a steady flow**: shifting both ends of the interval by the same amount (model times
+of 1e6 or 1e15 instead of 0) does not change the result -/
+theorem time_shift_invariant (L F0 : Mat3) (t0 t s : ℝ) :
+    Fsol L F0 (t0 + s) (t + s) = Fsol L F0 t0 t := by
+  simp only [Fsol]
+  congr 2; ring
+
 /-! ## 3. Liouville: the determinant -/
 
 /-- **algebraic core**: the derivative of `det3` at `F` in the direction `L·F` is `tr L · det F` -/
